@@ -7,6 +7,7 @@ import Driver.StoreFam
 import Driver.ConfigFam
 import Driver.WaitFam
 import Driver.PanicFam
+import Driver.RFlowFam
 /-!
 # `flytdriver`: one JSON line in (`{"fam":…,"sc":…,"obs":…}`), one JSON verdict line out.
 The scenario is run through the Lean model; the property predicates (`Spec.*`) are evaluated on
@@ -31,6 +32,7 @@ def handleLine (line : String) : Json :=
       | "config" => Driver.ConfigFam.handle sc obs
       | "wait" => Driver.WaitFam.handle sc obs
       | "panic" => Driver.PanicFam.handle sc obs
+      | "rflow" => Driver.RFlowFam.handle sc obs
       | f => Json.mkObj [("badop", Json.str s!"unknown family {f}")]
     | _, _, _ => Json.mkObj [("badop", Json.str "missing fam/sc/obs")]
 
